@@ -146,6 +146,11 @@ async def run_script(job):
                 t0 = time.time()
                 try:
                     if transport == "unix":
+                        if c.get("stale"):
+                            # a socket file left behind by a crashed earlier run sits at the path (asyncio replaces it on bind)
+                            s0 = socket.socket(socket.AF_UNIX)
+                            s0.bind(path)
+                            s0.close()
                         server = UnixControlServer(pool, path)
                     else:
                         port = free_port()
